@@ -30,6 +30,7 @@ def plan(tier, seed):
     for i in range(2 if tier == "quick" else 8):
         sh.append({"kind": "bic", "part": i, "parts": 2 if tier == "quick" else 8, "tier": tier, "_name": f"bic-{i}"})
     sh.append({"kind": "contracts", "tier": tier, "_name": "contracts"})
+    sh.append({"kind": "iban", "countries": ["DE", "GB", "FR", "NO", "IT", "MT"], "saturate": True, "tier": tier, "_prelude": False, "_name": "iban-after-many-characters"})
     for i in range(2):
         sh.append({"kind": "fold", "part": i, "parts": 2, "tier": tier, "_name": f"fold-{i}"})
     return sh
@@ -92,6 +93,23 @@ def check_formatted_bic(mon, S, obj, kw):
 def run_iban(shard, mon, S):
     table = data.countries()
     n = SIZES[shard["tier"]]["per_country"]
+    if shard.get("saturate"):
+        # a process that has already seen thousands of different characters (none of them whitespace): whatever
+        # the normalisation remembers about characters, blanks it meets afterwards for the first time still go
+        import unicodedata  # noqa: PLC0415
+
+        fed = 0
+        for cp in range(0xA1, 0x3000):
+            ch = chr(cp)
+            if ch.isspace() or unicodedata.category(ch) in ("Cn", "Cs", "Zs", "Zl", "Zp", "Cc"):
+                continue
+            for f_ in (lambda: S.IBAN("DE89" + ch + "370400440532013000"), lambda: S.BIC("DEUT" + ch + "EFF", allow_invalid=True)):
+                try:
+                    f_()
+                except Exception:  # noqa: BLE001, S110
+                    pass
+            fed += 1
+        mon.tally("distinct_non_ascii_characters_seen_before_decorating", fed)
     for cc in shard["countries"]:
         rng = env.rng("C10", cc)
         bases = gen.valid_ibans(cc, table[cc], rng, n)
@@ -137,6 +155,17 @@ def run_iban(shard, mon, S):
                 bb = b[4:]
                 comp = {k: bb[pos[k][0] : pos[k][1]] for k in ("bank_code", "account_code", "branch_code") if k in pos}
                 og = observe(S.IBAN.generate, cc, bank_code=comp["bank_code"], account_code=comp["account_code"], branch_code=comp.get("branch_code", ""))
+                if comp.get("branch_code"):
+                    # a component that is empty stays empty when it is written as whitespace: the bank code of
+                    # combined width with the branch given as "", " ", tab, NBSP, line break
+                    merged = comp["bank_code"] + comp["branch_code"]
+                    om = observe(S.IBAN.generate, cc, bank_code=merged, account_code=comp["account_code"], branch_code="")
+                    for blank in (" ", "\t", "\u00a0", " \n ", "\u2007"):
+                        ob_ = observe(S.IBAN.generate, cc, bank_code=merged, account_code=comp["account_code"], branch_code=blank)
+                        mon.ev()
+                        mon.tally("generate_variants_blank_component")
+                        if om.ok != ob_.ok or (om.ok and str(om.value) != str(ob_.value)):
+                            mon.viol("generate:blank_component_differs_from_empty", {"country": cc, "bank_code": merged, "branch_code": esc(blank)}, om.brief(), ob_.brief())
                 for _ in range(3):
                     var = {k: rng.choice(gen.decorate(v, rng)) if v else v for k, v in comp.items()}
                     ov = observe(S.IBAN.generate, cc, bank_code=var["bank_code"], account_code=var["account_code"], branch_code=var.get("branch_code", ""))
